@@ -62,3 +62,14 @@ Fixpoint mism10_aux (ts : list string) (tb : list str)
 Definition mism10 (ts : list string) (cs : list (N * (case * fcase * etm * scase * scase)))
   : list (N * otm) :=
   mism10_aux ts (map b ts) cs.
+
+(** fonts built by store calls: the tree below data/ and images/ of the first instance against
+    the model of the writing loop (entries in ascending key order) *)
+Fixpoint store_mism_aux (tb : list str) (cs : list (N * (scase * scase))) : list N :=
+  match cs with
+  | [] => []
+  | (i, (sd, si)) :: r =>
+      if store_ok tb sd && store_ok tb si then store_mism_aux tb r else i :: store_mism_aux tb r
+  end.
+Definition store_mism (ts : list string) (cs : list (N * (scase * scase))) : list N :=
+  store_mism_aux (map b ts) cs.
